@@ -157,7 +157,6 @@ def directed_closeness(A, side):
 
 def pair_betweenness(A, i, sources, targets):
     """sum_{s in sources, t in targets, s != t, s,t != i} sigma_st(i)/sigma_st."""
-    n = len(A)
     di, si = bfs(A, i)
     total = Fraction(0)
     cache = {}
